@@ -139,24 +139,25 @@ class KvsCursor(Cursor):
 class SeqCursor(Cursor):
     """index-based iteration over a z3 sequence.  Ghost `seen` = set of the elements visited so
     far ({seq[j] | j < i}); when the loop runs to completion it equals the set of all elements."""
-    def __init__(self, seq, i, ety, seen=None):
+    def __init__(self, seq, i, ety, seen=None, limit=None):
         self.seq, self.i, self.ety = seq, i, ety
+        self.limit = limit if limit is not None else z3.Length(seq)
         self.seen = seen if seen is not None else z3.K(ety.sort(), z3.BoolVal(False))
 
     def info(self):
         return {'seq': self.seq, 'i': self.i, 'seen': self.seen}
 
     def more(self):
-        return self.i < z3.Length(self.seq)
+        return self.i < self.limit
 
     def havoc(self, eng, st):
         i = fresh('idx', IntS)
-        st.assume(z3.And(i >= 0, i <= z3.Length(self.seq)))
+        st.assume(z3.And(i >= 0, i <= self.limit))
         seen = fresh('seen', z3.ArraySort(self.ety.sort(), BoolS))
         x = z3.Const('qx!seen', self.ety.sort())
         st.assume(z3.ForAll([x], z3.Implies(z3.Select(seen, x),
                                             z3.Contains(self.seq, z3.Unit(x)))))
-        return SeqCursor(self.seq, i, self.ety, seen)
+        return SeqCursor(self.seq, i, self.ety, seen, self.limit)
 
     def at_end(self, eng, st):
         x = z3.Const('qx!seenall', self.ety.sort())
@@ -167,7 +168,7 @@ class SeqCursor(Cursor):
         st.assume(z3.Contains(self.seq, z3.Unit(self.seq[self.i])))
         return (Sym(self.seq[self.i], self.ety),
                 SeqCursor(self.seq, self.i + 1, self.ety,
-                          z3.Store(self.seen, self.seq[self.i], True)))
+                          z3.Store(self.seen, self.seq[self.i], True), self.limit))
 
 
 class SetCursor(Cursor):
@@ -203,7 +204,8 @@ class Intrinsics:
 
     # ---- state ---------------------------------------------------------------------------------
     def init_state(self, eng, st, con):
-        pass
+        if 'cb_exc' in eng.GHOST_SORTS:
+            st.g['cb_exc'] = z3.IntVal(-1)     # no user function has raised in this call yet
 
     def on_field_write(self, eng, st, field, obj, v, node):
         pass
@@ -436,6 +438,10 @@ class Intrinsics:
                 return PyV.PInt(v.t)
             if v.ty.kind == 'bool':
                 return PyV.PBool(v.t)
+            if v.ty.kind in ('list', 'set'):
+                # a Python list/set of modelled values as a JSON list: content kept abstract
+                t = fresh('aslist', PyV)
+                return z3.If(PyV.is_PList(t), t, PyV.PList(PyVs.nil))
             raise Unsupported('to_pyv of %r' % v.ty)
         if isinstance(v, (ListV, TupleV)):
             l = PyVs.nil
@@ -498,6 +504,18 @@ class Intrinsics:
             if isinstance(a, ListV) and isinstance(b, Sym) and b.ty.kind == 'list':
                 aa = eng.to_seq(a, b.ty)
                 return Sym(z3.Concat(aa.t, b.t), b.ty, fresh=True)
+        if isinstance(op, ast.Add) and (isinstance(a, str) or (isinstance(a, Sym)
+                                                                and a.ty.kind == 'str')) \
+                and (isinstance(b, str) or (isinstance(b, Sym) and b.ty.kind == 'str')):
+            if isinstance(a, str) and isinstance(b, str):
+                return a + b
+            strcat = z3.Function('strcat', StrS, StrS, StrS)
+            r = strcat(lift(a), lift(b))
+            if isinstance(b, str) and b:
+                st.assume(r != lift(a))          # appending a non-empty suffix changes the string
+            if isinstance(a, str) and a:
+                st.assume(r != lift(b))
+            return Sym(r, STR, fresh=True)
         if self._is_int(a) and self._is_int(b):
             x, y = self._int(a), self._int(b)
             if isinstance(x, int) and isinstance(y, int):
@@ -678,6 +696,8 @@ class Intrinsics:
                 return x.t
             if ety.kind == 'opt' and x.t.sort() == ety.args[0].sort():
                 return ety.sort().some(x.t)
+            if x.ty.kind == 'opt' and x.ty.args[0].sort() == ety.sort():
+                return x.ty.sort().val(x.t)       # Optional value known not to be None here
             if ety.kind == 'pyv':
                 return self.to_pyv(x)
             if x.ty.kind == 'pyv' and ety.kind == 'str':
@@ -1388,6 +1408,9 @@ class Intrinsics:
                 ety = it.ty.args[0]
                 return SetCursor(it.t, z3.K(ety.sort(), z3.BoolVal(False)), ety)
         if isinstance(it, IterV):
+            if it.kind == 'prefix':
+                seq, n = it.parts
+                return SeqCursor(seq.t, z3.IntVal(0), seq.ty.args[0], None, n)
             if it.kind == 'zip':
                 a, b = it.parts
                 ia, ib = J.items(a.t), J.items(b.t)
